@@ -7,8 +7,9 @@ import (
 )
 
 type VersionRange struct {
-	original    string
-	constraints []constraint
+	original     string
+	constraints  []constraint
+	alternatives [][]constraint // further bracket sets of a multi-set range such as (,1.0],[1.2,)
 }
 
 type constraint struct {
@@ -28,24 +29,81 @@ func (e *Ecosystem) NewVersionRange(rangeStr string) (*VersionRange, error) {
 		return nil, fmt.Errorf("range string cannot be empty or only whitespace")
 	}
 
-	constraints, err := parseVersionRange(trimmed, e)
-	if err != nil {
-		return nil, err
+	// A requirement may list several bracket sets separated by commas: (,1.0],[1.2,)
+	// means x <= 1.0 or x >= 1.2
+	var sets [][]constraint
+	for _, set := range splitBracketSets(trimmed) {
+		constraints, err := parseVersionRange(strings.TrimSpace(set), e)
+		if err != nil {
+			return nil, err
+		}
+		sets = append(sets, constraints)
 	}
 
 	return &VersionRange{
-		original:    rangeStr,
-		constraints: constraints,
+		original:     rangeStr,
+		constraints:  sets[0],
+		alternatives: sets[1:],
 	}, nil
 }
 
+// splitBracketSets splits "(,1.0],[1.2,)" into its bracket sets; a string that is not a
+// comma-separated list of complete bracket sets is returned unchanged
+func splitBracketSets(rangeStr string) []string {
+	var sets []string
+	start := 0
+	for i := 0; i < len(rangeStr); i++ {
+		if rangeStr[i] != ']' && rangeStr[i] != ')' {
+			continue
+		}
+		// a set ends here if the string ends or a comma and a new opening bracket follow
+		rest := strings.TrimLeft(rangeStr[i+1:], " ")
+		if rest == "" {
+			sets = append(sets, rangeStr[start:])
+			start = len(rangeStr)
+			break
+		}
+		if rest[0] == ',' {
+			next := strings.TrimLeft(rest[1:], " ")
+			if next != "" && (next[0] == '[' || next[0] == '(') {
+				sets = append(sets, rangeStr[start:i+1])
+				start = len(rangeStr) - len(next)
+				i = start - 1
+			}
+		}
+	}
+	if start < len(rangeStr) || len(sets) < 2 {
+		return []string{rangeStr}
+	}
+	for _, set := range sets {
+		set = strings.TrimSpace(set)
+		if set == "" || (set[0] != '[' && set[0] != '(') {
+			return []string{rangeStr}
+		}
+	}
+	return sets
+}
+
 func (vr *VersionRange) Contains(version *Version) bool {
-	if len(vr.constraints) == 0 {
+	if satisfiesAll(version, vr.constraints) {
+		return true
+	}
+	for _, constraints := range vr.alternatives {
+		if satisfiesAll(version, constraints) {
+			return true
+		}
+	}
+	return false
+}
+
+// satisfiesAll reports whether the version satisfies every constraint of one bracket set
+func satisfiesAll(version *Version, constraints []constraint) bool {
+	if len(constraints) == 0 {
 		return false
 	}
 
 	// All constraints must be satisfied
-	for _, constraint := range vr.constraints {
+	for _, constraint := range constraints {
 		if !satisfiesConstraint(version, constraint) {
 			return false
 		}
